@@ -33,7 +33,7 @@ From Soy Require Import Model.Bytes Model.Num Model.Values Model.Outcome Model.A
   Model.Escape Model.Directives Model.Print Generated.Tables Model.Interp Model.InterpSafety Model.Globals
   Model.Compile Model.ExprPipeline Model.InterpExt Spec.Safety
   Proofs.SafetyPure Proofs.SafetyProofs Proofs.SafetyEntry Proofs.SafetyFuel Proofs.SafetyCompile Proofs.SafetyMono
-  Proofs.SafetyDepth Proofs.SafetyBytes Proofs.SafetyUser Proofs.SafetyExt.
+  Proofs.SafetyDepth Proofs.SafetyBytes Proofs.SafetyUser Proofs.SafetyExt Proofs.SafetyRefine.
 Open Scope N_scope.
 
 (* ================================================================== *)
@@ -148,11 +148,7 @@ Theorem C06_walk_cap_fuel :
     (k <= d)%nat -> (tree_height n + reg_height (c_reg cf) * (d - k) <= fuel)%nat ->
     depth_ st = k -> walk_cap cf d fuel n st = (r, st') ->
     depth_ st' = k /\ nf r.
-Proof.
-  intros cf d fuel n k st r st' Hk Hf Hst Hrun.
-  destruct (walk_cap_fuel cf d fuel n k Hk Hf st r st' Hst Hrun) as [H1 H2].
-  split; [exact H1|]. destruct r; cbn in H2 |- *; tauto.
-Qed.
+Proof. exact walk_cap_fuel_nf. Qed.
 Print Assumptions C06_walk_cap_fuel.
 
 (* (b) the capped walker reports the cap or IS the walker: same outcome, same final state *)
@@ -167,11 +163,7 @@ Theorem C06_walk_cap_monotone :
   forall cf d d' f f' n st,
     (d <= d')%nat -> (f <= f')%nat -> is_answer (fst (walk_cap cf d f n st)) ->
     walk_cap cf d' f' n st = walk_cap cf d f n st.
-Proof.
-  intros cf d d' f f' n st Hd Hf [Hoof Hcap].
-  rewrite <- (walk_cap_fuel_monotone cf d f f' n st Hf Hoof) in Hcap |- *.
-  apply walk_cap_depth_monotone; assumption.
-Qed.
+Proof. exact walk_cap_monotone. Qed.
 Print Assumptions C06_walk_cap_monotone.
 
 (* ================================================================== *)
@@ -310,7 +302,7 @@ Theorem C06_walk_user_no_escape :
     (forall name uf vs, ufuncs name = Some uf -> uf_apply uf vs <> UNoReturn) ->
     (forall name ud v args, udirs name = Some ud -> ud_apply ud v args <> UNoReturn) ->
     forall fuel n st, no_escape (fst (walk_user cf ufuncs udirs fuel n st)).
-Proof. intros cf ufuncs udirs H1 H2. apply walk_user_no_escape. split; assumption. Qed.
+Proof. exact walk_user_no_escape'. Qed.
 Print Assumptions C06_walk_user_no_escape.
 
 (* Renderer.Execute with them, incl. the code inside errRecover (positions stay inside the source) *)
@@ -322,7 +314,7 @@ Theorem C06_render_user_no_escape :
     reg_ok (c_reg cf) = true ->
     no_escape (rr_outcome (render_hook cf (funcs_with_user ufuncs) (dirs_with_user udirs)
                              fuel name data_id data calls_left bytes_left first_id)).
-Proof. intros. apply render_user_no_escape; [split; assumption | assumption]. Qed.
+Proof. exact render_user_no_escape'. Qed.
 Print Assumptions C06_render_user_no_escape.
 
 (* the hooked walker satisfies EVERY walker logic of Proofs/InterpLogic.v whose pure-site condition holds
@@ -338,7 +330,8 @@ Print Assumptions C06_walk_hook_logic.
 
 (* the limit: user code that does not return is not turned into an error by any wrapper *)
 Theorem C06_user_noreturn_not_covered : recover_func UNoReturn = Diverge /\ recover_directive UNoReturn = Diverge.
-Proof. split; reflexivity. Qed.
+Proof. exact user_noreturn_not_covered. Qed.
+Print Assumptions C06_user_noreturn_not_covered.
 
 (* ================================================================== *)
 (* The extended model: escapeJsString, json, round with digits         *)
@@ -370,6 +363,24 @@ Theorem C06_escape_js_total :
   forall v args s, value_string v = Ok s -> dir_escape_js v args = Ok (VStr (JsEscape.js_escape is_print_tbl s)).
 Proof. exact dir_escape_js_total. Qed.
 Print Assumptions C06_escape_js_total.
+
+(* the extended model is a conservative extension of the shared walker: every successful run of
+   Interp.walk (outcome Ok) is reproduced exactly -- value, final state, Write calls -- by walk_x, and every
+   successful render by render_x.  (Where Interp.walk answers OutOfModel the extended model computes; where
+   it answers an error the extended model answers an error too except under |json, which prints values
+   whose String() panics.) *)
+Theorem C06_walk_x_agrees :
+  forall cf f n st v st', walk cf f n st = (Ok v, st') -> walk_x cf f n st = (Ok v, st').
+Proof. exact walk_x_agrees. Qed.
+Print Assumptions C06_walk_x_agrees.
+
+Theorem C06_render_x_agrees :
+  forall cf fuel name data_id data calls_left bytes_left first_id,
+    rr_outcome (render cf fuel name data_id data calls_left bytes_left first_id) = Ok tt ->
+    render_x cf fuel name data_id data calls_left bytes_left first_id
+    = render cf fuel name data_id data calls_left bytes_left first_id.
+Proof. exact render_x_agrees. Qed.
+Print Assumptions C06_render_x_agrees.
 
 Example C06_ex_json :
   dir_json (VList 5 [VInt 1; VUndef; VStr (b "a<b"); VMap 6 [(b "k", VBool true); (b "a", VNull)]]) []
